@@ -216,7 +216,8 @@ class _WriteRequest:
             return
 
         if self._progress_cb is not None:
-            new_progress = int(100 * (self._write_len - self._bytes_left) / self._write_len)
+            # (an empty write is complete as soon as it is acknowledged)
+            new_progress = int(100 * (self._write_len - self._bytes_left) / self._write_len) if self._write_len else 100
             if new_progress > self._progress:
                 self._progress = new_progress
                 self._progress_cb(self._get_progress_message(), self._progress)
